@@ -103,7 +103,8 @@ LEVEL = {
             'design_ref': '5 C13',
             'note': _TB + 'Assumed: flock(2) grants LOCK_EX to one open file description at a time and releases it on close; the Go scheduler and GC finalisers are outside the model.'},
     'C15': {'text': 'Theorems: decoders are total functions into Ok/Want/Err with Go\'s integer wraps written out; a successful decode has allocated at most the size of its input; Open accepts a file only with a '
-                    'validated header and sufficient length, and then every archive is a ring of the announced size; fetches on any such ring never panic whatever the slots hold (unaligned / garbage base included).',
+                    'validated header and sufficient length, and then every archive is a ring of the announced size; fetches on any such ring never panic whatever the slots hold (unaligned / garbage base included), '
+                    'and neither do single and batch updates (C15_update_never_panics_on_any_contents, C15_batch_update_never_panics_on_any_contents: success or the range error for any slot contents, every storable method, clocks of the domain).',
             'design_ref': '5 C15',
             'note': _TB + 'Allocation is modelled as the size of the decoded result; the run measures runtime.MemStats.TotalAlloc in a child process under an address-space limit.'},
     'C17': {'text': 'PARTIAL. Theorems on the page-buffer model: a read never changes what the buffer shows nor the disk, and a read issued after another read returns what it returns alone '
